@@ -866,13 +866,24 @@ class C11(SimSpec):
                 sc["faults"] = {"record_points": ordn, "max_recoveries": 3}
                 sc["enum"] = {"base": b, "ord": ordn, "ref": True}
                 out.append(sim_task(sc, s, len(out)))
+        # transient scheduler-query failures: every squeue call fails with some probability (a single failure is absorbed by
+        # the retries inside the round, seven in a row abort the round); the run must still reach the fault-free outcome
+        for q in range({"quick": 40, "thorough": 400}[tier]):
+            s = sub_seed(seed, q, "C11squeue")
+            rng = random.Random(s)
+            sc = scenario.normalize(scenario.gen_scenario(rng, max_jobs=8, min_jobs=3, fail_p=0.3))
+            sc["faults"] = {"squeue_fail": rng.choice([0.15, 0.4, 0.7, 1.0]), "squeue_fail_budget": rng.choice([1, 3, 7, 8, 15, 30]), "max_recoveries": 12}
+            sc["c11"] = True
+            sc["user"] = {"try_submit": rng.choice([0, 1, 2]), "show_status": 0}
+            sc["enum"] = {"base": f"sq{q}", "ord": -1, "ref": False, "kind": "squeue_transient"}
+            out.append(sim_task(sc, s, len(out)))
         return out
 
     def second_phase(self, tier, seed, tasks, results):
         extra = []
         k0 = len(tasks)
         for t, r in zip(tasks, results):
-            if r.get("error"):
+            if r.get("error") or t["args"]["scen"]["enum"].get("kind") == "squeue_transient":
                 continue
             en = t["args"]["scen"]["enum"]
             pts = (r.get("sub_classes") or {}).get(str(en["ord"])) or (r.get("sub_classes") or {}).get(en["ord"]) or []
@@ -951,6 +962,12 @@ class C11(SimSpec):
             en = t["args"]["scen"]["enum"]
             if en.get("ref"):
                 continue
+            if en.get("kind") == "squeue_transient":
+                nq = sum(1 for f in (r.get("faults") or []) if f and f[0] == "squeue_fail")
+                if nq:
+                    injected += 1
+                    kinds["squeue_fail"] = kinds.get("squeue_fail", 0) + nq
+                continue
             fs = r.get("faults") or []
             if fs:
                 injected += 1
@@ -962,6 +979,7 @@ class C11(SimSpec):
                 diverged += 1
         ok = [r for r in results if not r.get("error")]
         c["reference_runs"] = sum(1 for t in tasks if t["args"]["scen"]["enum"].get("ref"))
+        c["transient_squeue_failure_runs"] = sum(1 for t in tasks if t["args"]["scen"]["enum"].get("kind") == "squeue_transient")
         c["fault_executions"] = sum(1 for t in tasks if not t["args"]["scen"]["enum"].get("ref"))
         c["faults_actually_injected"] = injected
         c["fault_point_not_reached"] = diverged
@@ -979,7 +997,7 @@ class C11(SimSpec):
         if cov.get("crash_site_classes_hit", 0) < 40:
             return "fewer than 40 distinct crash-site classes hit"
         for k in ("kill", "edquot", "torn", "lockfail", "sbatch_fail", "squeue_fail"):
-            if cov.get("by_fault_kind", {}).get(k, 0) < 2:
+            if cov.get("by_fault_kind", {}).get(k, 0) < (20 if k == "squeue_fail" else 2):
                 return f"fault kind {k} injected fewer than 2 times"
         return None
 
